@@ -41,3 +41,52 @@ proof fn lemma_rawmap_dom(ds: Seq<Seq<char>>)
         assert(rawmap_of(ds).dom() =~= dmap_of(ds)->Some_0.dom());
     }
 }
+// ---- serde_json::from_str on the three target types (A-JSON: derived Deserialize ignores unknown members, Option = absent or null) ----
+impl serde_json::FromText for Value {
+    open spec fn text_parses(s: Seq<char>) -> bool { json_parse(utf8(s)) is Some }
+    open spec fn text_parsed_as(s: Seq<char>, x: Self) -> bool { json_parse(utf8(s)) == Some(jv(x)) }
+}
+impl serde_json::FromText for Map<String, Value> {
+    open spec fn text_parses(s: Seq<char>) -> bool { json_parse(utf8(s)) is Some && json_parse(utf8(s))->Some_0 is Obj }
+    open spec fn text_parsed_as(s: Seq<char>, x: Self) -> bool { json_parse(utf8(s)) == Some(J::Obj(x@)) }
+}
+pub open spec fn envelope_of(j: J, x: SDJWTJson) -> bool {
+    j is Obj
+        && j_get(j->Obj_0, "protected"@) == Some(J::Str(x.protected@))
+        && j_get(j->Obj_0, "payload"@) == Some(J::Str(x.payload@))
+        && j_get(j->Obj_0, "signature"@) == Some(J::Str(x.signature@))
+        && j_get(j->Obj_0, "disclosures"@) == Some(J::Arr(x.disclosures@.map_values(|s: String| J::Str(s@))))
+        && (match x.kb_jwt { Some(k) => j_get(j->Obj_0, "kb_jwt"@) == Some(J::Str(k@)),
+                             None => j_get(j->Obj_0, "kb_jwt"@) is None || j_get(j->Obj_0, "kb_jwt"@) == Some(J::Null) })
+}
+pub uninterp spec fn is_envelope(j: J) -> bool;    // the members exist with the right JSON kinds
+impl serde_json::FromText for SDJWTJson {
+    open spec fn text_parses(s: Seq<char>) -> bool { json_parse(utf8(s)) is Some && is_envelope(json_parse(utf8(s))->Some_0) }
+    open spec fn text_parsed_as(s: Seq<char>, x: Self) -> bool { json_parse(utf8(s)) is Some && envelope_of(json_parse(utf8(s))->Some_0, x) }
+}
+// ---- what the two parsers establish (C10): the same abstract triple (jwt text, disclosure list, key-binding JWT) + payload + alg ----
+pub uninterp spec fn into_iter_rest<'a>(it: std::vec::IntoIter<&'a str>) -> Seq<Seq<char>>;   // remaining items of a vec::IntoIter<&str>
+// decoded JSON object of a base64url JWT payload part
+spec fn payload_json(b: Seq<char>) -> Option<Seq<(Seq<char>, J)>> {
+    match b64dec(b) { Some(bytes) => match utf8_dec(bytes) { Some(t) => match json_parse(utf8(t)) { Some(J::Obj(m)) => Some(m), _ => None }, None => None }, None => None }
+}
+spec fn common_parsed(jwt: Seq<char>, ds: Seq<Seq<char>>, e: SDJWTCommon) -> bool {
+    e.unverified_sd_jwt is Some && e.unverified_sd_jwt->Some_0@ == jwt
+        && strs(e.input_disclosures@) == ds
+        && e.unverified_input_sd_jwt_payload is Some
+}
+spec fn parsed_compact(s: Seq<char>, e: SDJWTCommon) -> bool {
+    let p = split_spec(s, "~"@);
+    p.len() >= 2
+        && common_parsed(p[0], p.subrange(1, p.len() - 1), e)
+        && e.unverified_input_key_binding_jwt is Some && e.unverified_input_key_binding_jwt->Some_0@ == p.last()
+        && split_spec(p[0], "."@).len() >= 2 && payload_json(split_spec(p[0], "."@)[1]) == Some(e.unverified_input_sd_jwt_payload->Some_0@)
+}
+spec fn parsed_json(s: Seq<char>, e: SDJWTCommon) -> bool {
+    exists|x: SDJWTJson| #![trigger envelope_of(json_parse(utf8(s))->Some_0, x)]
+        json_parse(utf8(s)) is Some && envelope_of(json_parse(utf8(s))->Some_0, x)
+        && common_parsed(x.protected@ + "."@ + x.payload@ + "."@ + x.signature@, strs(x.disclosures@), e)
+        && e.unverified_input_key_binding_jwt == x.kb_jwt
+        && payload_json(x.payload@) == Some(e.unverified_input_sd_jwt_payload->Some_0@)
+        && e.unverified_sd_jwt_json == Some(x)
+}
